@@ -327,9 +327,18 @@ func (p *Prog) layoutWrites(tname string, fd *ast.FuncDecl) ([]layoutAccess, []s
 	pay := hdr + ".payload"
 	cursor := int64(0)
 	prefix := map[string]int64{} // field -> octets prepended to it under a condition
+	condAdvance := int64(0)      // octets a conditional branch put in front of what follows (the payload assembled in a local)
 	var walk func(list []ast.Stmt)
 	walk = func(list []ast.Stmt) {
 		for _, s := range list {
+			// payload := hdr.payload[:0]: the payload is assembled in a local and stored back at the end
+			if as, ok := s.(*ast.AssignStmt); ok && as.Tok == token.DEFINE && len(as.Lhs) == 1 && len(as.Rhs) == 1 {
+				if base, lo, hi, ok := p.sliceBounds(as.Rhs[0]); ok && base == hdr+".payload" && lo == 0 && hi == 0 {
+					pay = p.text(as.Lhs[0])
+					cursor = 0
+					continue
+				}
+			}
 			switch x := s.(type) {
 			case *ast.IfStmt:
 				// if recv.flag { buf[k] |= mask }: a one-bit field kept in octet k
@@ -345,7 +354,13 @@ func (p *Prog) layoutWrites(tname string, fd *ast.FuncDecl) ([]layoutAccess, []s
 						}
 					}
 				}
+				c0 := cursor
 				walk(x.Body.List)
+				if x.Else == nil && c0 >= 0 && cursor > c0 && pay != hdr+".payload" {
+					// the branch reserved octets in front: what follows sits at c0, or behind them
+					condAdvance = cursor - c0
+					cursor = c0
+				}
 				if b, ok := x.Else.(*ast.BlockStmt); ok {
 					walk(b.List)
 				}
@@ -390,7 +405,8 @@ func (p *Prog) layoutWrites(tname string, fd *ast.FuncDecl) ([]layoutAccess, []s
 				// recv.buf[k] = recv.f
 				if ix, ok := x.Lhs[0].(*ast.IndexExpr); ok {
 					if k, ok := p.intConst(ix.Index); ok {
-						if _, ok := p.recvFieldOf(tname, ix.X); ok {
+						_, onRecv := p.recvFieldOf(tname, ix.X)
+						if onRecv || p.text(ix.X) == pay {
 							if f, ok := p.recvFieldOf(tname, x.Rhs[0]); ok {
 								acc = append(acc, layoutAccess{field: f, offs: []int64{k}, width: 1, pos: x.Pos()})
 							}
@@ -428,6 +444,8 @@ func (p *Prog) layoutWrites(tname string, fd *ast.FuncDecl) ([]layoutAccess, []s
 								offs := []int64{at}
 								if n, ok := prefix[f]; ok && n > 0 {
 									offs = []int64{at, at + n}
+								} else if condAdvance > 0 {
+									offs = []int64{at, at + condAdvance}
 								}
 								acc = append(acc, layoutAccess{field: f, offs: offs, width: 0, pos: c.Pos()})
 							}
